@@ -54,13 +54,13 @@ CHECKS["C04"] = dict(
     note="bounded sizes, seeded sampling; instances with condition number > 1e5 are skipped and counted; lifting tolerance scaled with the condition number",
     technique="TLA+ inverse-formulation predicates evaluated by TLC on lifted solver results and assembled systems")
 CHECKS["C12"] = dict(
-    text="On the same inverse-formulation instances TLC evaluates the backward-Euler residual alpha(new-old)/dt + A new = gamma cell by cell on the lifted solvePDE result and the lifted code matrices, the fixed-point clause (a steady solution started from itself is returned unchanged for every dt, alpha), the explicit step (old + dt*RHS on interior cells, BCs re-imposed, input byte-identical, result a new object) and the usability of the explicit result by solvePDE. The limit clauses dt->0, dt->inf and O(dt^2) agreement are asymptotic and only observed in floating point as supporting evidence (DESIGN 8).",
+    text="On the same inverse-formulation instances TLC evaluates the backward-Euler residual alpha(new-old)/dt + A new = gamma cell by cell on the lifted solvePDE result and the lifted code matrices, the fixed-point clause (a steady solution started from itself is returned unchanged for every dt, alpha), the explicit step (old + dt*RHS on interior cells, BCs re-imposed, input byte-identical, result a new object) and the usability of the explicit result by solvePDE. The limit clauses dt->0, dt->inf and O(dt^2) agreement are asymptotic and only observed in floating point as supporting evidence (DESIGN 8). A further history keeps a per-cell alpha in ONE CellVariable object over two steps with the same dt and refreshes it in place in between (C12_HistoryAlpha).",
     ref="DESIGN.md 5/C12, 8",
     note="limits themselves are not decided by TLC (no reals); exact algebraic forms are",
     technique="TLA+ residual / fixed-point / explicit-step predicates evaluated by TLC on lifted solver results")
 
 CHECKS["C09"] = dict(
-    text="FVLifecycle.tla models objects, sharing, dirty bits, caches and ghost freshness with one action per public call, written like the code. TLC checks all histories to a depth (3 variables, 3 BC objects, symmetry-reduced, about 1e6 states in the thorough tier) for: a solve never reads a missing or (for unshared BC objects) stale cache, ghost layer and cache fresh after solve/apply, explicit result usable, copies/operator results independent, clean flags imply fresh caches. The unrestricted freshness invariant fails only through a shared BC object - TLC's counterexample is replayed into real objects on 7 grid classes (known finding). Every transition of two bounded state graphs (2 variables to depth 4; 1 variable, both sides, seven kinds of boundary edits incl. periodic on/off and single-coefficient assignment, to depth 5 quick / 7 thorough) and TLC -simulate behaviours over the full alphabet are replayed step by step into real objects on 7 grid classes in three construction styles (interior values / ghost-inclusive float / ghost-inclusive integer array); every solvePDE and a probe solve after every edge are compared bit-for-bit with the solve of a freshly constructed variable. Code -> spec: the public calls of 7 (quick) / 17 (thorough) repository tests, of random programs and of the shared-BC scenario are recorded through the env-guarded hooks and validated in full by FVLifecycleTrace (object slots recycled through Drop events). Extras in the thorough tier: Apalache discharges an inductive invariant of the lifecycle core (pools of 3) and TLAPS proves it for arbitrary pools (spec/proofs/FVLifecycleIndProof.tla, 38 obligations).",
+    text="FVLifecycle.tla models objects, sharing, dirty bits, caches and ghost freshness with one action per public call, written like the code. TLC checks all histories to a depth (3 variables, 3 BC objects, symmetry-reduced, about 1e6 states in the thorough tier) for: a solve never reads a missing or (for unshared BC objects) stale cache, ghost layer and cache fresh after solve/apply, explicit result usable, copies/operator results independent, clean flags imply fresh caches. The unrestricted freshness invariant fails only through a shared BC object - TLC's counterexample is replayed into real objects on 7 grid classes (known finding). Every transition of two bounded state graphs (2 variables to depth 4; 1 variable, both sides, seven kinds of boundary edits incl. periodic on/off and single-coefficient assignment, to depth 5 quick / 7 thorough) and TLC -simulate behaviours over the full alphabet are replayed step by step into real objects on 7 grid classes in three construction styles (interior values / ghost-inclusive float / ghost-inclusive integer array); every solvePDE and a probe solve after every edge are compared bit-for-bit with the solve of a freshly constructed variable. Code -> spec: the public calls of 7 (quick) / 17 (thorough) repository tests, of random programs and of the shared-BC scenario are recorded through the env-guarded hooks and validated in full by FVLifecycleTrace (object slots recycled through Drop events). Extras in the thorough tier: Apalache discharges an inductive invariant of the lifecycle core (pools of 3) and TLAPS proves it for arbitrary pools (spec/proofs/FVLifecycleIndProof.tla, 38 obligations). Edit kinds include writes through a slice view of a coefficient array that the program holds across solves (state viewHot), in the replayed edge graphs, the simulated behaviours and the recorded random programs.",
     ref="DESIGN.md 5/C09",
     note="exhaustive exploration bounded in pools and depth; manual flag resets outside the alphabet; simulated behaviours are seeded samples beyond the exhaustive depth; the Apalache / TLAPS results are about the model, the binding to the code is by replay and trace validation",
     technique="TLA+ lifecycle model checked by TLC (exhaustive + simulate) and replayed into the real objects with a fresh-start oracle")
@@ -70,7 +70,7 @@ CHECKS["C14"] = dict(
     note="arrays on the right are required for CellVariable only; expression depth bounded",
     technique="TLA+ lifecycle model (TLC) + behaviour replay with byte snapshots; TLC-enumerated operator table")
 CHECKS["C15"] = dict(
-    text="FVLifecycle gives every Build / SolveMatrix / SolveExplicit action the frame condition UNCHANGED on all inputs and SolvePDE changes only its variable; TLC -simulate behaviours of a builder-heavy configuration (15 builder kinds) are replayed on 7 grid classes and the frame condition is observed by byte snapshots of everything reachable (mesh arrays, value arrays, BC arrays and flags, cached CSR data), every builder is called twice (bit-identical results) and returned buffers are tested for aliasing with mesh storage and inputs.",
+    text="FVLifecycle gives every Build / SolveMatrix / SolveExplicit action the frame condition UNCHANGED on all inputs and SolvePDE changes only its variable; TLC -simulate behaviours of a builder-heavy configuration (15 builder kinds) are replayed on 7 grid classes and the frame condition is observed by byte snapshots of everything reachable (mesh arrays, value arrays, BC arrays and flags, cached CSR data), every builder is called twice (bit-identical results) and returned buffers are tested for aliasing with mesh storage and inputs. A result must also keep its bytes when the same builder is called with other inputs in between (C15_ResultStable).",
     ref="DESIGN.md 5/C15",
     note="seeded behaviours; aliasing tested with numpy.shares_memory",
     technique="TLA+ frame conditions (TLC) + behaviour replay with byte snapshots and aliasing probes")
